@@ -180,6 +180,7 @@ def check(chk):
     dfl = dict((src(st.targets[0]), src(st.value)) for st in scls.body if isinstance(st, ast.Assign))
     ok = dfl.get('retry_policy') == 'None' and dfl.get('consistency_level') == 'None' and dfl.get('fetch_size') == 'FETCH_SIZE_UNSET' and dfl.get('_serial_consistency_level') == 'None'
     chk.judge(ok, 'C46.bound', scls, 'class defaults are the "unset" markers (None / FETCH_SIZE_UNSET)', 'statement class defaults changed: %s' % dict((k, dfl.get(k)) for k in ('retry_policy', 'consistency_level', 'fetch_size', '_serial_consistency_level')))
+    _row_factory_rule(chk)
 
 
 def _env(text, value):
@@ -189,3 +190,29 @@ def _env(text, value):
     for p in reversed(parts[1:]):
         d = {p: d}
     return {parts[0]: d}
+
+
+def _row_factory_rule(chk):
+    """the effective row factory was resolved when the request was built and handed to the future: every place in ResponseFuture that turns
+    rows into results uses self.row_factory - the session default is read only to fill that attribute in __init__"""
+    chk.rule('C46.rowfactory', 'ResponseFuture turns rows into results only with self.row_factory (the resolved option); session.row_factory is read only as the default in __init__')
+    cl = chk.repo.mod('cassandra/cluster.py')
+    n_uses = 0
+    for q, f in cl.functions():
+        if not q.startswith('ResponseFuture.'):
+            continue
+        for x in body_walk(f):
+            if isinstance(x, ast.Attribute) and x.attr == 'row_factory' and isinstance(x.ctx, ast.Load):
+                base = src(x.value)
+                if q == 'ResponseFuture.__init__':
+                    continue
+                n_uses += 1
+                chk.judge(base == 'self', 'C46.rowfactory', x, '%s reads %s' % (q, src(x)),
+                          '%s uses %s instead of the row factory resolved for this request: rows of this code path (continuous paging) are built with the session default whatever '
+                          'the execution profile or legacy setting says' % (q, src(x)))
+    init = cl.func('ResponseFuture.__init__')
+    asg = [st for st in body_walk(init) if isinstance(st, ast.Assign) and src(st.targets[0]) == 'self.row_factory']
+    chk.judge(len(asg) == 1 and src(asg[0].value) == 'row_factory or session.row_factory', 'C46.rowfactory', init, 'self.row_factory = row_factory or session.row_factory',
+              'the resolved row factory is not stored as given')
+    if n_uses < 2:
+        raise AnalysisError('ResponseFuture: uses of the row factory not found (%d)' % n_uses)
